@@ -932,3 +932,54 @@ _subgrammar_body = '''
 def parse(text, pos=0, fullparse=True):
     return _run(_ctx, text, pos, $start, fullparse)
 '''
+
+
+# --- Verification hook (add-only, off unless SOURCER_VERIF=1) ----------------
+# When the environment variable SOURCER_VERIF is "1" at import time, the _run
+# driver in the generated code reports its steps (begin / push / hit / ret /
+# end) to the module `sourcer_verif_rt`, if that module can be imported. The
+# events are emitted after the state change they describe. With the variable
+# unset, the templates - and so the generated code - are untouched.
+def _verif_instrument(template):
+    import re as _re
+
+    def after(anchor, *lines, deeper=False):
+        nonlocal template
+        match = _re.search(r'^([ ]*)' + _re.escape(anchor) + r'$', template, _re.M)
+        if match is None:
+            raise Exception(f'SOURCER_VERIF: anchor not found: {anchor!r}')
+        indent = match.group(1) + ('    ' if deeper else '')
+        addition = ''.join(f'\n{indent}{x}' for x in lines)
+        template = template[:match.end()] + addition + template[match.end():]
+
+    after('stack = [(key, gtor)]',
+        '_vt = _verif_tracer()',
+        'if _vt: _vt.begin(key)')
+    after('memo[key] = result',
+        'if _vt: _vt.ret(key, result, len(stack))')
+    after('elif result in memo:',
+        '_vk = result', deeper=True)
+    after('result = memo[result]',
+        'if _vt: _vt.hit(_vk, result, len(stack))')
+    after('stack.append((result, gtor))',
+        'if _vt: _vt.push(result, len(stack))')
+    template = template.replace(
+        '\n    if result[0]:\n        return _finalize_parse_info(',
+        '\n    if _vt: _vt.end(result)\n    if result[0]:\n        return _finalize_parse_info(',
+        1,
+    )
+    template += (
+        '\n\ndef _verif_tracer():\n'
+        '    try:\n'
+        '        return __import__("sourcer_verif_rt").tracer()\n'
+        '    except ImportError:\n'
+        '        return None\n'
+    )
+    return template
+
+
+import os as _os
+if _os.environ.get('SOURCER_VERIF') == '1':
+    _main_template = _verif_instrument(_main_template)
+    _subgrammar_setup = _subgrammar_setup.replace(
+        '    _ctx as _super_ctx,', '    _verif_tracer,\n    _ctx as _super_ctx,')
